@@ -13,6 +13,15 @@ NEEDS = ["model/Values.v", "model/Eval.v", "model/Loader.v", "proofs/EvalP.v", "
 HDR = "name r\nversion 1.0\n"
 
 
+from fractions import Fraction
+
+NEAR_OFFSET = [("(q0 - 1000.5) ** 6", {0: 1000.75}, lambda v: (v[0] - Fraction(2001, 2)) ** 6),
+               ("(q1 - 20.25) ** 8 + 1", {1: 20.5}, lambda v: (v[1] - Fraction(81, 4)) ** 8 + 1),
+               ("(q0 - shift) ** 6 / (q1 + 2)", {0: 1000.75, 1: 20.5}, lambda v: (v[0] - Fraction(2001, 2)) ** 6 / (v[1] + 2)),
+               ("(q2 - 512.5) * (q2 - 512.5) * (q2 - 512.5) * (q2 - 512.5)", {2: 512.625}, lambda v: (v[2] - Fraction(1025, 2)) ** 4),
+               ("(q0 - 4096.25) ** 4 - (q1 - 20.25) ** 2", {0: 4096.5, 1: 20.5}, lambda v: (v[0] - Fraction(16385, 4)) ** 4 - (v[1] - Fraction(81, 4)) ** 2)]
+
+
 def reg_expr(rng, regs, depth=2):
     """polynomial/rational expression over registers with int/float coefficients; no identical cancellation"""
     def coeff():
@@ -153,6 +162,27 @@ def run(tier, seed):
                                         {"check": "seeds", "text": t, "seed": s})
             if len(res.violations) >= 5:
                 break
+        # (c) the function computes the WRITTEN formula, also where an algebraically equal rearrangement would not: powers and
+        #     products of bracketed differences with a large offset, evaluated at measurement values close to the offset (every
+        #     number is a dyadic rational, so the written formula has an exactly representable value, computed with fractions)
+        near = NEAR_OFFSET
+        for expr, vals, exact in near:
+            for form in ("Zgate(%s) | 3", "Zgate(0.5, select=%s) | 3"):
+                text = HDR + "float shift = 1000.5\nMeasureX | 0\nMeasureX | 1\nMeasureX | 2\n" + form % expr + "\n"
+                res.case(text, True, None)
+                res.count("transform-near-offset")
+                try:
+                    p = impl.loads(text)
+                    o = p.operations[-1]
+                    trf = (o["args"] + list(o["kwargs"].values()))[-1]
+                    got = float(trf.func(*[vals[r] for r in trf.regrefs]))
+                    want = float(exact({k: Fraction(v) for k, v in vals.items()}))
+                    if abs(got - want) > 1e-9 * abs(want):
+                        ok = False
+                        res.violate("the transform of %s gives %r at %s, the written formula gives %r" % (expr, got, vals, want), {"check": "near-offset", "text": text})
+                except Exception as e:  # noqa: BLE001
+                    ok = False
+                    res.violate("evaluating the transform of %s fails: %s: %s" % (expr, type(e).__name__, str(e)[:100]), {"check": "near-offset", "text": text})
         res.oblige("correspondence: transforms = model (registers exact, func(listed order) = written formula) in-process and under %d hash seeds" % len(seeds), "correspondence", ok)
         model.close()
     else:
@@ -168,6 +198,16 @@ def run(tier, seed):
 def replay(rep):
     import impl
     inp = rep["input"]
+    if inp.get("check") == "near-offset":
+        for expr, vals, exact in NEAR_OFFSET:
+            if expr in inp["text"]:
+                o = impl.loads(inp["text"]).operations[-1]
+                trf = (o["args"] + list(o["kwargs"].values()))[-1]
+                got = float(trf.func(*[vals[r] for r in trf.regrefs]))
+                want = float(exact({k: Fraction(v) for k, v in vals.items()}))
+                print(got, want)
+                return 1 if abs(got - want) > 1e-9 * abs(want) else 0
+        return 0
     if inp.get("check") == "seeds":
         r0 = subproc.run_batch([{"kind": "loads", "text": inp["text"]}], 0)
         r1 = subproc.run_batch([{"kind": "loads", "text": inp["text"]}], inp["seed"])
